@@ -36,7 +36,8 @@ def bounds(tier):
 def required_cells(tier):
     return ["distinct-codebase-orders", "distinct-platform-orders", "distinct-scandir-orders", "hashseed", "shuffle", "creation-order",
             "toml-permuted", "duplicates-present", "cov-compared", "clustering-compared", "mode-flag-with-repeated-define", "file-symlinks", "cross-language-alias",
-            "platform-names-case-variants", "pass-flags-reordered", "pass-headers-attributed", "clustering-with-case-variant-names"]
+            "platform-names-case-variants", "pass-flags-reordered", "pass-headers-attributed", "clustering-with-case-variant-names",
+            "order-dependent-exclude-patterns", "option-replacing-a-default-per-platform"]
 
 
 PASS_CONFIG = """[[compiler.gcc.parser]]
@@ -90,6 +91,8 @@ def gen_case(rng, index=1):
             ["chain", [["if", "DUP == 1", [["code"]]], ["elif", "DUP == 2", [["code"]]], ["else", None, [["code"]]]]],
             ["chain", [["ifdef", "_OPENMP", [["code"]]], ["else", None, [["code"]]]]]]
     case["extra"] = dict(c06.EXTRA)
+    case["extra"]["extra/kern.cu"] = ("int k0;\n#if defined(__CUDA_ARCH__) && __CUDA_ARCH__ >= 900\nint k90;\n#elif defined(__CUDA_ARCH__) && __CUDA_ARCH__ >= 800\n"
+                                      "int k80;\n#elif defined(__CUDA_ARCH__) && __CUDA_ARCH__ >= 750\nint k75;\n#elif defined(__CUDA_ARCH__)\nint k70;\n#else\nint host;\n#endif\n")
     case["extra"]["passinc/a/ph.h"] = "#define PH_A 1\nint pha;\n"
     case["extra"]["passinc/b/ph.h"] = "#define PH_B 1\nint phb1;\nint phb2;\n"
     # file symlinks: a second name for a compiled file and for a header, and a name with another language's extension
@@ -156,11 +159,25 @@ def write_toml(case, base, root, perm_seed):
         case = dict(case, tus=[dict(tu, extra_args=flip(tu["extra_args"])) if tu.get("extra_args") else tu for tu in case["tus"]])
     c08.write_dbs(case, base)
     plats = sorted({t["platform"] for t in case["tus"]})
+    # every platform also compiles one CUDA file with nvcc, each for its own architecture (an option that REPLACES a
+    # default): what one platform's command selects must not depend on the platforms analysed before it
+    for k, p in enumerate(plats):
+        dbp = os.path.join(base, "dbs", forest.dbname(p))
+        es = json.load(open(dbp))
+        es.append({"file": os.path.join(root, "extra", "kern.cu"), "directory": root,
+                   "arguments": ["nvcc", "--gpu-architecture=sm_%d" % [70, 80, 90, 75][k % 4], "-c", os.path.join(root, "extra", "kern.cu")]})
+        with open(dbp, "w") as f:
+            json.dump(es, f)
     random.Random(perm_seed).shuffle(plats)
     with open(os.path.join(root, "analysis.toml"), "w") as f:
+        # exclude patterns whose ORDER matters (a negation after a wildcard), half in the file, half on the command line
+        f.write("[codebase]\nexclude = [\"extra/deep/*\", \"!extra/deep/v.hpp\"]\n\n")
         for p in plats:
             f.write(f"[platform.\"{p}\"]\ncommands = \"{os.path.join(base, 'dbs', forest.dbname(p))}\"\n\n")
     return plats
+
+
+CLI_EXCLUDES = ["-x", "*.s", "-x", "!a.s", "-x", "extra/lib-1.2/", "-x", "*.f90", "-x", "!f.f90"]
 
 
 def one_run(case, base, root, hashseed, shuffle, do_clustering):
@@ -170,7 +187,7 @@ def one_run(case, base, root, hashseed, shuffle, do_clustering):
     if shuffle is not None:
         launch["shuffle"] = shuffle
     reports = ["-R", "summary", "-R", "duplicates"] + (["-R", "clustering"] if do_clustering else [])
-    rc, out, err = cli.run("codebasin", reports + ["analysis.toml"], root, launch=launch, hashseed=hashseed, timeout=600)
+    rc, out, err = cli.run("codebasin", CLI_EXCLUDES + reports + ["analysis.toml"], root, launch=launch, hashseed=hashseed, timeout=600)
     if rc != 0:
         return {"error": f"codebasin rc={rc}: {err[-300:]} {out[-200:]}"}
     d = json.load(open(dump))
@@ -270,6 +287,11 @@ def check_case(ctx, case, base, cls, do_clustering=False):
         cells.add("distinct-scandir-orders")
     if "coverage" in base_obs:
         cells.add("cov-compared")
+    ka = base_obs.get("attribution", {}).get("extra/kern.cu", {})
+    if len({tuple(v) for v in ka.values()}) >= 3:
+        cells.add("option-replacing-a-default-per-platform")      # the architecture-specific lines belong to different platforms
+    if "extra/a.s" in base_obs.get("attribution", {}) and "extra/deep/v.hpp" in base_obs.get("attribution", {}):
+        cells.add("order-dependent-exclude-patterns")      # the re-included files are members: the negations took effect
     att = base_obs.get("attribution", {})
     if all(any(v for v in att.get(f"passinc/{x}/ph.h", {}).values()) for x in "ab"):
         cells.add("pass-headers-attributed")
